@@ -6,3 +6,4 @@ import SpgProofs.Properties.C14
 #print axioms Spg.C14.shared_writes
 #print axioms Spg.C14.no_global_or_captured_writes
 #print axioms Spg.C14.pointer_calls
+#print axioms Spg.C14.package_state
